@@ -258,6 +258,123 @@ Section Proofs.
   Qed.
 End Proofs.
 
+(* ---- area additivity without side conditions, and "no orphan" from the oracle's geometry ---- *)
+Lemma filter_length_le : forall {A} (f g : A -> bool) l,
+  (forall x, In x l -> f x = true -> g x = true) -> (length (filter f l) <= length (filter g l))%nat.
+Proof.
+  induction l as [|a l IH]; intros H; cbn [filter]; [lia|].
+  assert (IH' := IH (fun x Hx => H x (or_intror Hx))).
+  destruct (f a) eqn:Fa.
+  - rewrite (H a (or_introl eq_refl) Fa). cbn [length]. lia.
+  - destruct (g a); cbn [length]; lia.
+Qed.
+
+Lemma filter_length_lt : forall {A} (f g : A -> bool) l y,
+  (forall x, In x l -> f x = true -> g x = true) -> In y l -> g y = true -> f y = false ->
+  (length (filter f l) < length (filter g l))%nat.
+Proof.
+  induction l as [|a l IH]; intros y H Hy Gy Fy; [destruct Hy|].
+  cbn [filter]. destruct Hy as [->|Hy].
+  - rewrite Fy, Gy. cbn [length].
+    pose proof (filter_length_le f g l (fun x Hx => H x (or_intror Hx))). lia.
+  - assert (IH' := IH y (fun x Hx => H x (or_intror Hx)) Hy Gy Fy).
+    destruct (f a) eqn:Fa.
+    + rewrite (H a (or_introl eq_refl) Fa). cbn [length]. lia.
+    + destruct (g a); cbn [length]; lia.
+Qed.
+
+Section Additivity.
+  Variable n : Z.
+  Variable inside : Z -> Z -> bool.
+  Variable area : Z -> Z.
+  Hypothesis Hn : 0 <= n.
+
+  Definition member (i : Z) : bool :=
+    positive area i || (positive area (ancestor n inside area i) && (0 <=? ancestor n inside area i)).
+
+  (* unconditional: the components hold exactly the rings that are positive or
+     have a positive ring at the end of their parent walk (orphan holes are
+     dropped by the code), each once *)
+  Theorem decompose_kept_perm :
+    Permutation (concat (decompose n inside area)) (filter member (ziota n)).
+  Proof.
+    apply NoDup_Permutation; [apply decompose_nodup; exact Hn | apply NoDup_filter; apply nodup_ziota|].
+    intros i. rewrite (decompose_member n inside area Hn), filter_In, in_ziota. unfold member.
+    rewrite orb_true_iff, andb_true_iff, Z.leb_le.
+    destruct (positive area i); intuition congruence.
+  Qed.
+
+  Theorem decompose_area_additive_kept : forall a2 : Z -> Z,
+    zsum (map (fun c => zsum (map a2 c)) (decompose n inside area)) = zsum (map a2 (filter member (ziota n))).
+  Proof.
+    intros a2. rewrite <- (zsum_perm _ _ (Permutation_map a2 decompose_kept_perm)).
+    generalize (decompose n inside area). induction l as [|c l IH]; cbn [map concat zsum fold_right]; [reflexivity|].
+    rewrite map_app, zsum_app. cbn [zsum] in IH. unfold zsum in *. lia.
+  Qed.
+
+  (* geometry of a regularized cross-section, as assumptions on the oracle:
+     a ring contained in another has strictly smaller |area|; kept rings have
+     non-zero area; every hole is contained in some other ring *)
+  Hypothesis Hgrow : forall i j, 0 <= i < n -> 0 <= j < n -> inside i j = true -> Z.abs (area i) < Z.abs (area j).
+  Hypothesis Hnz : forall i, 0 <= i < n -> area i <> 0.
+  Hypothesis Hcont : forall i, 0 <= i < n -> area i < 0 -> exists j, 0 <= j < n /\ j <> i /\ inside i j = true.
+
+  Definition bigger (p : Z) : nat := length (filter (fun j => Z.abs (area p) <? Z.abs (area j)) (ziota n)).
+
+  Lemma parent_of_hole : forall p, 0 <= p < n -> area p < 0 ->
+    0 <= parent_of n inside area p < n /\ (bigger (parent_of n inside area p) < bigger p)%nat.
+  Proof.
+    intros p Rp Ap.
+    destruct (parent_of_spec n inside area p) as [[_ Hnone]|[Rq [Hne [Hin _]]]].
+    - exfalso. destruct (Hcont p Rp Ap) as [j [Rj [Nj Ij]]]. rewrite (Hnone j Rj Nj) in Ij. discriminate.
+    - split; [exact Rq|]. set (q := parent_of n inside area p) in *.
+      pose proof (Hgrow p q Rp Rq Hin) as Hlt.
+      unfold bigger. apply (filter_length_lt _ _ (ziota n) q).
+      + intros x _ Hx. apply Z.ltb_lt in Hx. apply Z.ltb_lt. lia.
+      + apply in_ziota. exact Rq.
+      + apply Z.ltb_lt. exact Hlt.
+      + apply Z.ltb_ge. lia.
+  Qed.
+
+  Lemma walk_reaches : forall fuel p, 0 <= p < n -> (bigger p < fuel)%nat ->
+    0 <= walk n inside area fuel p < n /\ 0 < area (walk n inside area fuel p).
+  Proof.
+    induction fuel as [|f IH]; intros p Rp Hm; [lia|].
+    cbn [walk]. destruct ((0 <=? p) && (area p <? 0)) eqn:C.
+    - apply andb_prop in C. destruct C as [_ C]. apply Z.ltb_lt in C.
+      destruct (parent_of_hole p Rp C) as [Rq Hlt]. apply IH; [exact Rq | lia].
+    - split; [exact Rp|]. apply andb_false_iff in C. destruct C as [C|C].
+      + apply Z.leb_gt in C. lia.
+      + apply Z.ltb_ge in C. pose proof (Hnz p Rp). lia.
+  Qed.
+
+  Theorem no_orphan_holes : forall i, 0 <= i < n -> positive area i = false ->
+    positive area (ancestor n inside area i) = true /\ 0 <= ancestor n inside area i.
+  Proof.
+    intros i Ri Pi. unfold Decomp2Defs.positive in Pi. apply Z.ltb_ge in Pi.
+    assert (Ai : area i < 0) by (pose proof (Hnz i Ri); lia).
+    destruct (parent_of_hole i Ri Ai) as [Rq _].
+    unfold Decomp2Defs.ancestor.
+    assert (Hb : (bigger (parent_of n inside area i) < Z.to_nat (n + 1))%nat).
+    { unfold bigger. pose proof (filter_length_le (fun j => Z.abs (area (parent_of n inside area i)) <? Z.abs (area j)) (fun _ => true) (ziota n) (fun _ _ _ => eq_refl)) as L.
+      assert (E : length (filter (fun _ : Z => true) (ziota n)) = Z.to_nat n).
+      { clear. unfold ziota. induction (seq 0 (Z.to_nat n)) as [|a l IH] eqn:El in |- *.
+        - cbn. pose proof (seq_length (Z.to_nat n) 0) as SL. rewrite El in SL. cbn in SL. lia.
+        - pose proof (seq_length (Z.to_nat n) 0) as SL. rewrite El in SL.
+          assert (G : forall l' : list nat, length (filter (fun _ : Z => true) (map Z.of_nat l')) = length l').
+          { induction l' as [|b l' IHl]; cbn; [reflexivity | rewrite IHl; reflexivity]. }
+          rewrite G. exact SL. }
+      lia. }
+    destruct (walk_reaches _ _ Rq Hb) as [Rw Aw].
+    split; [unfold Decomp2Defs.positive; apply Z.ltb_lt; exact Aw | lia].
+  Qed.
+
+  (* hence for such input every kept ring is in exactly one component and areas add up *)
+  Theorem decompose_area_additive_regular : forall a2 : Z -> Z,
+    zsum (map (fun c => zsum (map a2 c)) (decompose n inside area)) = zsum (map a2 (ziota n)).
+  Proof. intros a2. apply (decompose_area_additive n inside area Hn a2). exact no_orphan_holes. Qed.
+End Additivity.
+
 Lemma decompose_example_ok :
   decompose_rings [ [(0,0);(10,0);(10,10);(0,10)]; [(1,9);(9,9);(9,1);(1,1)]; [(2,2);(8,2);(8,8);(2,8)];
                     [(3,4);(4,4);(4,3);(3,3)]; [(20,0);(22,0);(22,2);(20,2)] ] = [[0; 1]; [2; 3]; [4]].
